@@ -6,7 +6,7 @@ From Coq Require Import List NArith Bool Arith.
 From Coq Require String.
 From Coq.Strings Require Import Byte.
 Import ListNotations.
-From OV Require Import Base.Bytes Base.Utf8 Model.Edi Proofs.Edi Proofs.EdiUnits Proofs.EdiRT.
+From OV Require Import Base.Bytes Base.Utf8 Model.Edi Proofs.Edi Proofs.EdiUnits Proofs.EdiRT Proofs.EdiCover.
 
 (* ByteIndexWithEsc, for EVERY byte string s, every non-empty delim and every esc (empty or not):
    the result is the first position at which delim occurs without being preceded by an odd run of
@@ -117,6 +117,64 @@ Theorem edi_full_roundtrip_enc : forall c, cfg_ok c -> forall segs inp sname dec
   (if c_ignore_crlf c then strip_crlf inp else inp) = edi_encode c segs ->
   full_read_all c sname decls inp = Ok (exp_full decls (map ls_seg segs)).
 Proof. exact full_roundtrip_enc. Qed.
+
+(* ---- nothing is lost (no cfg_ok: every configuration with non-empty segment and element
+   delimiters, every input) ------------------------------------------------------------------------ *)
+
+(* ignore_crlf drops CR and LF bytes and nothing else, in place *)
+Theorem strip_crlf_spec : forall inp, strip_crlf inp = filter (fun b => negb (is_crlf b)) inp.
+Proof. exact strip_crlf_spec. Qed.
+
+(* edi_tokens_cover.  NonValidatingReader never panics or loops; the (stripped) input is the
+   concatenation of the tokens it scans plus a rest that holds no unescaped segment delimiter;
+   every token ends with its first unescaped segment delimiter (is_token); the tokens made of CR/LF
+   only are skipped (crlf_only_token) and every other token p ++ seg yields one result: its pieces
+   n (elements x repetitions x components), joined again with the delimiters, are p -- or p without
+   the one CR that the LF rule drops -- and the RawSegElems are exactly those pieces, numbered
+   (tok_accounted).  So every input byte is in a RawSegElem, is a delimiter byte, is a CR/LF
+   dropped as the rules say, or belongs to the unterminated rest. *)
+Theorem edi_tokens_cover : forall c inp, c_seg c <> [] -> c_elem c <> [] ->
+  let inp' := if c_ignore_crlf c then strip_crlf inp else inp in
+  exists toks rest results,
+    nv_read_all c inp = Ok results /\
+    inp' = concat toks ++ rest /\
+    Forall (is_token (c_seg c) (optb (c_rel c))) toks /\
+    (forall j, ~ unesc_occ (optb (c_rel c)) rest (c_seg c) j) /\
+    Forall2 (tok_accounted c) (filter (fun t => negb (only_crlf t)) toks) results.
+Proof. exact nv_read_all_cover. Qed.
+
+(* edi_tokens_complete.  The full statement -- "the rest is always empty: every byte of the input
+   ends up in some token" -- is false of the code (edi_trailing_refuted below; DESIGN section 6
+   F8, scanner flag EofNotAsDelim extracted into Gen/EdiConsts.v).  Under the guard "the input is
+   a sequence of terminated segments" (inp' = concat toks with every member a token) it holds:
+   the scanner returns exactly those tokens and every one is accounted for. *)
+Theorem edi_tokens_complete : forall c inp toks, c_seg c <> [] -> c_elem c <> [] ->
+  let inp' := if c_ignore_crlf c then strip_crlf inp else inp in
+  inp' = concat toks -> Forall (is_token (c_seg c) (optb (c_rel c))) toks ->
+  scan_tokens (S (length inp')) inp' (c_seg c) (optb (c_rel c)) = Ok toks /\
+  exists results, nv_read_all c inp = Ok results /\
+    Forall2 (tok_accounted c) (filter (fun t => negb (only_crlf t)) toks) results.
+Proof.
+  intros c inp toks Hs He inp' Hin Ht. split.
+  - rewrite Hin. apply scan_tokens_terminated; [exact Hs|exact Ht|apply Nat.lt_succ_diag_r].
+  - exact (nv_read_all_complete c inp toks Hs He Hin Ht).
+Qed.
+
+(* edi_trailing_refuted (F8): A*1~A*2~Z*lost -- the two terminated segments are delivered, the
+   bytes after the last terminator are in no token and in no result, and EOF is clean. *)
+Theorem edi_trailing_refuted :
+  exists c inp, c_seg c <> [] /\ c_elem c <> [] /\ c_ignore_crlf c = false /\
+    exists toks results,
+      scan_tokens (S (length inp)) inp (c_seg c) (optb (c_rel c)) = Ok toks /\
+      concat toks <> inp /\
+      nv_read_all c inp = Ok results /\ length results = 2.
+Proof.
+  exists (mkCfg [x7e] [x2a] None None None false).
+  exists [x41; x2a; x31; x7e; x41; x2a; x32; x7e; x5a; x2a; x6c; x6f; x73; x74].
+  split; [discriminate|]. split; [discriminate|]. split; [reflexivity|].
+  eexists. eexists. split; [vm_compute; reflexivity|]. split; [discriminate|].
+  split; [vm_compute; reflexivity|reflexivity].
+Qed.
 
 (* The first version of these theorems (first bytes ASCII, byte-wise encoder) as corollaries. *)
 Theorem cfg_ok_ascii_ok : forall c, cfg_ok_ascii c -> cfg_ok c.
@@ -288,6 +346,18 @@ Example edi_dup_decl_old_refuted :
     seg_to_node_old (hx "3f") 0 decls raw = Ok (Some [(0, hx "613f622a63"); (1, hx "61622a632a63")]) /\
     seg_to_node (hx "3f") 0 decls raw = Ok (Some [(0, hx "613f622a63"); (1, hx "613f622a63")]).
 Proof. eexists. split; [vm_compute; reflexivity|]. split; vm_compute; reflexivity. Qed.
+
+(* the guard of edi_tokens_complete is satisfiable: the input A*?~1~B~ is the two tokens A*?~1~
+   (an escaped terminator inside) and B~ *)
+Example edi_tokens_complete_ex :
+  let seg := hx "7e" in let esc := hx "3f" in
+  Forall (is_token seg esc) [hx "412a3f7e317e"; hx "427e"] /\
+  nv_read_all (mkCfg (hx "7e") (hx "2a") None None (Some (hx "3f")) false) (hx "412a3f7e317e427e") =
+    Ok [SegOk (hx "41") [mkRE 0 1 (hx "41"); mkRE 1 1 (hx "3f7e31")]; SegOk (hx "42") [mkRE 0 1 (hx "42")]].
+Proof.
+  split; [|vm_compute; reflexivity].
+  apply (scan_is_token (hx "7e") (hx "3f") (hx "412a3f7e317e427e")); [discriminate|vm_compute; reflexivity].
+Qed.
 
 (* the side condition is not idle: an element delimiter "*?" whose tail contains the release
    character "?" makes the segment delimiter after an empty last element look escaped, and the
